@@ -67,6 +67,35 @@ example : resolve exGrid (capHandle exGrid ⟨0, .write⟩) [1] = some ⟨1, fal
     serve true exGrid ⟨0, .write⟩ ([1] ++ [8, 9]) { meth := .put, t := .none }
       = (exGrid, .err .notWriteable) := by decide
 
+/-- **`readonly_target_refused_unchanged`**: the read-only node is the *addressed* node (the last
+link of the path is a read-only link; its parent may well be writeable) and the request is a POST —
+the operations that act on the addressed node itself: t=mkdir&name=, t=upload, t=uri, t=delete/unlink,
+t=rename, t=relink (whatever `to_dir=` names, also a writeable directory), t=set_children — on a
+directory or a mutable file: unchanged, and refused with the same exception as above.
+(PUT and DELETE on such a path act on the *parent* link and are legitimate when the parent is writeable;
+POST t=upload on an *immutable* file replaces the parent's link likewise.) -/
+theorem readonly_target_refused_unchanged (g : Grid) (c : Cap) (path : List Nat) (r : Req) (hdl : Handle)
+    (hres : resolve g (capHandle g c) path = some hdl) (hro : hdl.w = false) (hpost : r.meth = .post)
+    (hk : isDirAt g hdl.addr = true ∨ isMutableAt g hdl.addr = true) :
+    (serve true g c path r).1 = g ∧
+    ((serve true g c path r).2.refused = true ∨ r.alreadyDoneForm = true) := by
+  obtain ⟨hd', htr, t⟩ := traverse_tracksK r (path.getLast?.getD 0) g path (rootHandler g c) (capHandle g c) hdl
+    (rootHandler_tracksK g c) hres
+  unfold serve
+  rw [htr]
+  exact render_post_target_ro g hd' hdl r t hro hpost hk
+
+/-- relink out of the read-only directory `1` (reached through the writeable root by the read link `1`)
+into the writeable directory `4` named by its write cap: refused, nothing linked into `4`; the same
+request through the write link `2` moves the child -/
+example :
+    serve true exGrid ⟨0, .write⟩ [1] { meth := .post, t := .relink, name := some 5, toName := some 9,
+        toDir := some (⟨4, .write⟩, []) } = (exGrid, .err .notWriteable) ∧
+    (serve true exGrid ⟨0, .write⟩ [2] { meth := .post, t := .relink, name := some 5, toName := some 9,
+        toDir := some (⟨4, .write⟩, []) }).2 = .ok () ∧
+    entriesOf (serve true exGrid ⟨0, .write⟩ [2] { meth := .post, t := .relink, name := some 5, toName := some 9,
+        toDir := some (⟨4, .write⟩, []) }).1 4 = [(9, ⟨3, false⟩)] := by decide
+
 /-- non-vacuity of the table: the same requests through the write-cap link `2` succeed and change the grid -/
 example :
     (serve true exGrid ⟨0, .write⟩ [2, 6] { meth := .put, t := .none }).2 = .ok () ∧
